@@ -152,6 +152,29 @@ func c12(c *Ctx) {
 		if strings.Contains(string(stub), "SCRIBBLED") || strings.Contains(string(stub), "scribbled") {
 			o.Plan.GoViolations = append(o.Plan.GoViolations, GoViolation{Key: "stub:aliases-caller-slice", Desc: fmt.Sprintf("case %d: the stub file shows what the caller wrote into its own Doc/Pragma argument slice after the call, not the documentation and directives that were given: %s", idx, desc), Replay: map[string]any{"functions": desc, "stub": string(stub)}})
 		}
+		// package names that are not identifiers (the name guessed from a hyphenated directory, a keyword): the
+		// stub printer either refuses or returns Go source that declares the functions; it never hands back
+		// something else without an error
+		if k%5 == 0 {
+			for _, pkgName := range []string{"my-math", "go", "2fast", "func"} {
+				bs, perr := printer.NewStubs(printer.Config{Name: "avo", Pkg: pkgName}).Print(f)
+				if perr != nil {
+					continue
+				}
+				pf, err := parser.ParseFile(token.NewFileSet(), "stub.go", bs, 0)
+				ndecl := 0
+				if err == nil {
+					for _, d := range pf.Decls {
+						if _, isF := d.(*ast.FuncDecl); isF {
+							ndecl++
+						}
+					}
+				}
+				if err != nil || ndecl != len(fns) {
+					o.Plan.GoViolations = append(o.Plan.GoViolations, GoViolation{Key: "stub:bad-package-name-accepted", Desc: fmt.Sprintf("case %d: with the package name %q the stub printer reports no error and returns %d bytes that %s (%d of %d functions declared)", idx, pkgName, len(bs), map[bool]string{true: "parse", false: "are not Go source"}[err == nil], ndecl, len(fns)), Replay: map[string]any{"package": pkgName, "functions": desc}})
+				}
+			}
+		}
 		// printing reads the file: the same printer asked again, a fresh printer, and the other printer having
 		// run in between all give the same bytes
 		{
